@@ -443,6 +443,8 @@ def to_plain(x):
         return {k: to_plain(v) for k, v in x.items()}
     if isinstance(x, (list, tuple)):
         return [to_plain(v) for v in x]
+    if isinstance(x, (set, frozenset)):  # (JSON has no sets: the qudit indices of an operator term come back as a list)
+        return sorted(to_plain(v) for v in x)
     if isinstance(x, np.ndarray):
         return [to_plain(v) for v in x.tolist()]
     return core._np_item(x)
@@ -451,7 +453,9 @@ def to_plain(x):
 def h_config(shape):
     def h(inp):
         jsonfacade.reset()
-        from pulser.backend import BitStrings, CorrelationMatrix, EmulationConfig, Energy, EnergyVariance, Fidelity, Occupation
+        from pulser.backend import (BitStrings, CorrelationMatrix, EmulationConfig, Energy, EnergySecondMoment, EnergyVariance,
+                                    Expectation, Fidelity, Occupation)
+        from pulser.backend.operator import OperatorRepr
         from pulser.backend.state import StateRepr
         from pulser.noise_model import NoiseModel
 
@@ -475,6 +479,11 @@ def h_config(shape):
                 obs_list.append(Energy(**kw))
             elif kind == "variance":
                 obs_list.append(EnergyVariance(**kw))
+            elif kind == "second_moment":
+                obs_list.append(EnergySecondMoment(**kw))
+            elif kind == "expectation":
+                op_ = OperatorRepr.from_operator_repr(eigenstates=("r", "g"), n_qudits=2, operations=[(1.0, [({"rr": 1.0}, {0})])])
+                obs_list.append(Expectation(op_, **kw))
             elif kind == "fidelity":
                 st = StateRepr.from_state_amplitudes(eigenstates=("r", "g"), amplitudes={"rr": 1.0, "gg": 1.0})
                 obs_list.append(Fidelity(st, **kw))
@@ -502,10 +511,23 @@ def h_config(shape):
         if shape.get("extra"):
             # backend-specific options (not part of the standard set), one of them explicitly None
             cfg_kw.update(custom_cutoff=inp.real("cutoff", 0, 1), custom_log_file=None, custom_level=3)
+        if shape.get("nested"):
+            cfg_kw.update(custom_solver={"tolerances": {"atol": inp.real("atol", 0, 1)}, "steps": [1, 2, 3]})
         try:
             cfg = EmulationConfig(**cfg_kw)
         except (ValueError, TypeError):
             raise core.Infeasible()
+        if shape.get("nested"):
+            # configurations built from the same (mutable) arguments share nothing with each other nor with the caller's objects
+            twin = EmulationConfig(**cfg_kw)
+            before = to_plain(twin._backend_options)
+            cfg.custom_solver["tolerances"]["atol"] = 7.0
+            cfg.custom_solver["steps"].append(4)
+            extra_obs.append(("k3:configs_independent", AND(l2.snap_equal(to_plain(twin._backend_options), before),
+                                                            len(cfg_kw["custom_solver"]["steps"]) == 3,
+                                                            cfg_kw["custom_solver"]["tolerances"]["atol"] is not cfg.custom_solver["tolerances"]["atol"],
+                                                            set(cfg_kw["custom_solver"]) == {"tolerances", "steps"})))
+            cfg = twin
         try:
             s = cfg.to_abstract_repr()  # real schema validation
             cfg2 = EmulationConfig.from_abstract_repr(s)
@@ -578,6 +600,11 @@ def kernels(tier):
     ks.append(("config", dict(obs=["fidelity", "bitstrings"], times=[True, False], init=True, shots=7, prefer=False)))
     ks.append(("config", dict(obs=["bitstrings"], times=[True], noise="eff")))
     ks.append(("config", dict(obs=["occupation"], times=[True], extra=True)))
+    ks.append(("config", dict(obs=["occupation"], times=[True], extra=True, nested=True)))
+    # two observables of each kind, told apart by their tag suffix only
+    ks.append(("config", dict(obs=["fidelity", "fidelity", "expectation", "expectation"], times=[True, False, False, True], suffix=True)))
+    ks.append(("config", dict(obs=["energy", "energy", "second_moment", "second_moment", "variance", "variance"], times=[False] * 6, suffix=True)))
+    ks.append(("config", dict(obs=["correlation", "correlation", "occupation", "occupation", "bitstrings", "bitstrings"], times=[False] * 6, suffix=True)))
     return ks
 
 
